@@ -116,8 +116,9 @@ package prunner
 //@   safety
 //@   lockmode R
 //@   requires [ri] RIbase(r) && job != nil
-//@   ensures  [C12.decision] res0 <==> (!defined(r, job.Pipeline) || (!jobWaiting(job) && (job.Completed || job.Canceled) && ((r.defs.Pipelines[job.Pipeline].RetentionPeriod > 0 && $clock - job.Created > r.defs.Pipelines[job.Pipeline].RetentionPeriod) || (r.defs.Pipelines[job.Pipeline].RetentionCount > 0 && index >= r.defs.Pipelines[job.Pipeline].RetentionCount))))
-//@   ensures  [C12.keepLive] defined(r, job.Pipeline) && (jobWaiting(job) || jobRunning(job)) ==> !res0
+//@   ensures  [C12.decision] res0 <==> (!jobWaiting(job) && (job.Completed || job.Canceled) && (!defined(r, job.Pipeline) || ((r.defs.Pipelines[job.Pipeline].RetentionPeriod > 0 && $clock - job.Created > r.defs.Pipelines[job.Pipeline].RetentionPeriod) || (r.defs.Pipelines[job.Pipeline].RetentionCount > 0 && index >= r.defs.Pipelines[job.Pipeline].RetentionCount))))
+//@   ensures  [C12.keepLive] jobWaiting(job) || jobRunning(job) ==> !res0
+//@   ensures  [C12.purge] !defined(r, job.Pipeline) && !jobWaiting(job) && (job.Completed || job.Canceled) ==> res0
 //@   ensures  [C12.noSettings] defined(r, job.Pipeline) && r.defs.Pipelines[job.Pipeline].RetentionPeriod == 0 && r.defs.Pipelines[job.Pipeline].RetentionCount == 0 ==> !res0
 //@   ensures  [clock] $clock >= old($clock)
 //@   modifies $clock
@@ -480,7 +481,7 @@ package prunner
 //@ pure liveJob(j *PipelineJob) bool = jobWaiting(j) || jobRunning(j)
 //@ pure jobFinished(j *PipelineJob) bool = !jobWaiting(j) && (j.Completed || j.Canceled)
 //@ pure jobsUntouched() bool = same(PipelineJob.Start) && same(PipelineJob.Canceled) && same(PipelineJob.Completed) && same(PipelineJob.End) && same(PipelineJob.LastError) && same(PipelineJob.sched) && same(PipelineJob.startTimer) && same(PipelineJob.Pipeline) && same(PipelineJob.ID)
-//@ pure liveKept(r *PipelineRunner) bool = forall id uuid.UUID :: old((id in r.jobsByID) && defined(r, r.jobsByID[id].Pipeline) && (jobWaiting(r.jobsByID[id]) || jobRunning(r.jobsByID[id]))) ==> (id in r.jobsByID) && r.jobsByID[id] == old(r.jobsByID[id])
+//@ pure liveKept(r *PipelineRunner) bool = forall id uuid.UUID :: old((id in r.jobsByID) && (jobWaiting(r.jobsByID[id]) || jobRunning(r.jobsByID[id]))) ==> (id in r.jobsByID) && r.jobsByID[id] == old(r.jobsByID[id])
 
 //@ pure persistedTaskOf(e *store.PersistedTask, t *jobTask) bool = e.Name == t.Name && e.Script == t.Script && e.DependsOn == t.DependsOn && e.AllowFailure == t.AllowFailure && e.Status == t.Status && e.Start == t.Start && e.End == t.End && e.Skipped == t.Skipped && e.ExitCode == t.ExitCode && e.Errored == t.Errored && ((e.Error == nil) <==> (t.Error == nil))
 //@ pure persistedOf(e *store.PersistedJob, j *PipelineJob) bool = j != nil && e.ID == j.ID && e.Pipeline == j.Pipeline && e.Completed == j.Completed && e.Canceled == j.Canceled && e.Created == j.Created && e.Start == j.Start && e.End == j.End && e.Variables == j.Variables && e.User == j.User && ((e.LastError == nil) <==> (j.LastError == nil)) && len(e.Tasks) == len(j.Tasks) && forall k :: 0 <= k && k < len(j.Tasks) ==> persistedTaskOf(e.Tasks[k], j.Tasks[k])
@@ -495,7 +496,7 @@ package prunner
 //@   ensures  [C11.tokens] $wgTokens == old($wgTokens)
 //@   at call Save#1: assert [C11.saveTracked] $wgTokens == old($wgTokens) + 1
 //@   ensures  [C12.keepLive] liveKept(r)
-//@   ensures  [C01.listKeepsLive] forall p string, k int :: old(defined(r, p)) && 0 <= k && k < old(len(r.jobsByPipeline[p])) && old(liveJob(r.jobsByPipeline[p][k])) ==> exists k2 :: 0 <= k2 && k2 < len(r.jobsByPipeline[p]) && r.jobsByPipeline[p][k2] == old(r.jobsByPipeline[p][k])
+//@   ensures  [C01.listKeepsLive] forall p string, k int :: 0 <= k && k < old(len(r.jobsByPipeline[p])) && old(liveJob(r.jobsByPipeline[p][k])) ==> exists k2 :: 0 <= k2 && k2 < len(r.jobsByPipeline[p]) && r.jobsByPipeline[p][k2] == old(r.jobsByPipeline[p][k])
 //@   ensures  [C12.logsKept] forall id uuid.UUID :: (id in r.jobsByID) && idRoundTrips(id) ==> $logsRemoved[uf1(1, id)] == old($logsRemoved[uf1(1, id)])
 //@   ensures  [C12.waitLists] sameExcept("map(map[string][]*PipelineJob)", r.jobsByPipeline)
 //@   modifies map(map[uuid.UUID]*PipelineJob)@[r.jobsByID], map(map[string][]*PipelineJob)@[r.jobsByPipeline], mem(*PipelineJob), $clock, $logsRemoved, $logsRemoveFailed, $savedData, $wgTokens, $passDom
@@ -520,8 +521,8 @@ package prunner
 //@   at call Remove#1: assert [C12.whyNow] jobFinished(job) && defined(r, job.Pipeline) && $passDom[job.ID] ==> (retCount(r, job) > 0 && i >= retCount(r, job)) || (retPeriod(r, job) > 0 && $clock - job.Created > retPeriod(r, job))
 //@   loop 1 invariant [C11.noNew] forall id uuid.UUID :: (id in r.jobsByID) ==> old(id in r.jobsByID) && r.jobsByID[id] == old(r.jobsByID[id])
 //@   loop 2 invariant [C11.noNew] forall id uuid.UUID :: (id in r.jobsByID) ==> old(id in r.jobsByID) && r.jobsByID[id] == old(r.jobsByID[id])
-//@   loop 1 invariant [C01.listKeepsLive] forall p string, k int :: old(defined(r, p)) && 0 <= k && k < old(len(r.jobsByPipeline[p])) && old(liveJob(r.jobsByPipeline[p][k])) ==> exists k2 :: 0 <= k2 && k2 < len(r.jobsByPipeline[p]) && r.jobsByPipeline[p][k2] == old(r.jobsByPipeline[p][k])
-//@   loop 2 invariant [C01.listKeepsLive] forall p string, k int :: old(defined(r, p)) && 0 <= k && k < old(len(r.jobsByPipeline[p])) && old(liveJob(r.jobsByPipeline[p][k])) ==> exists k2 :: 0 <= k2 && k2 < len(r.jobsByPipeline[p]) && r.jobsByPipeline[p][k2] == old(r.jobsByPipeline[p][k])
+//@   loop 1 invariant [C01.listKeepsLive] forall p string, k int :: 0 <= k && k < old(len(r.jobsByPipeline[p])) && old(liveJob(r.jobsByPipeline[p][k])) ==> exists k2 :: 0 <= k2 && k2 < len(r.jobsByPipeline[p]) && r.jobsByPipeline[p][k2] == old(r.jobsByPipeline[p][k])
+//@   loop 2 invariant [C01.listKeepsLive] forall p string, k int :: 0 <= k && k < old(len(r.jobsByPipeline[p])) && old(liveJob(r.jobsByPipeline[p][k])) ==> exists k2 :: 0 <= k2 && k2 < len(r.jobsByPipeline[p]) && r.jobsByPipeline[p][k2] == old(r.jobsByPipeline[p][k])
 //@   loop 1 invariant [clock] $clock >= old($clock)
 //@   loop 2 invariant [distinct] distinctElems(sortedJobsInPipeline)
 //@   loop 2 invariant [sorted] all(sortedJobsInPipeline, nonNil) && all(sortedJobsInPipeline, regWeak, r) && (forall k :: $i < k && k < len(sortedJobsInPipeline) ==> registered(sortedJobsInPipeline[k], r)) && fresh(base(sortedJobsInPipeline)) && 0 <= $i + 1 && $i + 1 <= len(sortedJobsInPipeline)
